@@ -15,9 +15,14 @@ EXPLANATION = (
     "field iterator, take_length_prefixed or any derived unpack (exceptions with reasons); (C15.3) WireType::new and "
     "tag_bits are inverse tables on {0,1,2,5}, every other 3-bit value is an error, Tag packs (number << 3) | bits and "
     "unpacks with >> 3 / & 7, FieldNumber::new rejects 0, > 2^29-1 and 19000..=19999, and prototk_derive's copies of "
-    "those constants equal prototk's.  TABLE (switch-tree reading), GUARDED, const eval, panic audit over REACH.")
-NOT_DECIDED = "round-trip equality, wire compatibility, implicit bounds/overflow panics in the varint paths"
-ASSUMPTIONS = ["explicit-construct-only audit: MIR Assert terminators (bounds, overflow) are out of scope"]
+    "those constants equal prototk's; (C15.2b) every index / range-slice expression in the same reach set (MIR BoundsCheck "
+    "asserts and Index::index calls) is in range: the bound is established by a comparison, dominating the site, with the "
+    "length of the *same* buffer, or by construction (loop variable, fixed array length), no write to an operand lying "
+    "between check and use; v64::unpack_size's precondition buf.len() >= 10 >= SZ is proved at each of its call sites; "
+    "sites the prover cannot discharge are excepted one by one with the reason.  TABLE (switch-tree reading), GUARDED, "
+    "const eval, panic audit and array-bounds dataflow over REACH.")
+NOT_DECIDED = "round-trip equality, wire compatibility, integer-overflow panics (debug builds) in the varint paths"
+ASSUMPTIONS = ["overflow Assert terminators are out of scope; the 7 excepted slice sites are safe by the loop invariants / canonical-size argument given in the exception table"]
 
 PACK_FNS = ("pack_sz", "pack", "stream")
 
